@@ -20,6 +20,7 @@ struct Args {
     transcript: Option<PathBuf>,
     emit_part: Option<PathBuf>,
     merge_part: Option<PathBuf>,
+    cases: Option<PathBuf>,
 }
 
 fn parse() -> Args {
@@ -44,6 +45,7 @@ fn parse() -> Args {
     let mut transcript = None;
     let mut emit_part = None;
     let mut merge_part = None;
+    let mut cases = None;
     let mut i = 2;
     while i < a.len() {
         let need = |i: usize| -> String {
@@ -85,6 +87,10 @@ fn parse() -> Args {
                 merge_part = Some(PathBuf::from(need(i)));
                 i += 1;
             }
+            "--cases" => {
+                cases = Some(PathBuf::from(need(i)));
+                i += 1;
+            }
             "--part" => {
                 cfg.only_part = Some(need(i));
                 i += 1;
@@ -96,7 +102,7 @@ fn parse() -> Args {
         }
         i += 1;
     }
-    Args { cfg, transcript, emit_part, merge_part }
+    Args { cfg, transcript, emit_part, merge_part, cases }
 }
 
 /// Either runs the part, or - in replay mode - re-executes the one case of the replay file if it
@@ -190,6 +196,23 @@ fn main() {
         "C06" => go(&props::c06::C06, &cfg, &mut reports, &mut replayed),
         "C07" => go(&props::c07::C07, &cfg, &mut reports, &mut replayed),
         "C08" => go(&props::c08::C08, &cfg, &mut reports, &mut replayed),
+        "C09" | "C12" => {
+            let path = args.cases.clone().unwrap_or_else(|| cfg.root.join("target").join("c09_cases.json"));
+            let cases = match props::c09::load_cases(&path) {
+                Ok(c) => c,
+                Err(e) => {
+                    eprintln!("MACHINERY-ERROR {} (generate it with ref/gen_c09.py; ./check does)", e);
+                    std::process::exit(2);
+                }
+            };
+            assumptions.push("the verdict for every NIST encoding comes from R2's from-scratch predicate (ref/prims.py), whose curve constants are self-validated by ref/anchors.py".into());
+            if cfg.prop == "C09" {
+                go(&props::c09::C09 { cases }, &cfg, &mut reports, &mut replayed);
+            } else {
+                let accepted = cases.into_iter().filter(|c| c.expect == "ok").collect();
+                go(&props::c09::C12 { accepted }, &cfg, &mut reports, &mut replayed);
+            }
+        }
         "C10" => go(&props::c10::C10, &cfg, &mut reports, &mut replayed),
         "C13" => go(&props::c13::C13, &cfg, &mut reports, &mut replayed),
         "C14" => go(&props::c14::C14, &cfg, &mut reports, &mut replayed),
